@@ -14,6 +14,7 @@ var (
 	vAllowFail   bool
 	vAllowAlways bool
 	vRenamed     bool
+	vAllowBreak  bool
 )
 
 func vSymByte(tag string) string {
@@ -83,6 +84,9 @@ func vEdit() {
 	if vHasDir {
 		kinds = append(kinds, "dir-content", "dir-rename", "dir-add", "dir-remove")
 	}
+	if vAllowBreak {
+		kinds = append(kinds, "break-dependency")
+	}
 	switch kinds[vChoose("edit", len(kinds))] {
 	case "nothing":
 		vReach("edit-nothing")
@@ -117,6 +121,13 @@ func vEdit() {
 				}
 			}
 		}
+	case "break-dependency":
+		// a BUILD file edit that makes the top target depend on a label that names no target (a
+		// typo), or repairs it again
+		names := vFunctionNames()
+		top := names[len(names)-1]
+		vBroken[top] = !vBroken[top]
+		vReach("edit-break-dependency")
 	case "dir-content":
 		p := vRoot + "/" + vDirEntries[vChoose("which-entry", len(vDirEntries))]
 		if n, ok := vFS[p]; ok {
@@ -220,7 +231,11 @@ func vBuildOf(tn string, opts *RunOptions) vBuildResult {
 		vCheckC01(tn)
 	} else {
 		vReach("build-failed")
-		vAssert(len(vFail) > 0, "a build failed although no body fails")
+		broken := false
+		for _, b := range vBroken {
+			broken = broken || b
+		}
+		vAssert(len(vFail) > 0 || broken, "a build failed although no body fails")
 	}
 	return res
 }
@@ -476,6 +491,7 @@ func VHarnessHistory() {
 	vKept, vKeepProject = nil, keep // the steps below start from a freshly loaded project (kept for all of them when reload=0)
 	vSteps()
 	vFail = map[string]bool{}
+	vBroken = map[string]bool{}
 	r := vBuildOf(top, nil)
 	vAssert(r.buildErr == nil, "a build without failing bodies fails")
 	vReach("history-done")
@@ -557,6 +573,7 @@ func VHarnessDry() {
 	if vParam("first") == 1 {
 		vBuildOf(top, nil)
 	}
+	vAllowBreak = true
 	vSteps()
 	tn := names[len(names)-1-vChoose("build-target", len(names))]
 	always := vAllowAlways && vNondetBool("always")
@@ -574,6 +591,10 @@ func VHarnessDry() {
 	}
 	r := vBuildOf(tn, opts)
 	real := vEvaluatingSet()
+	if vBroken[top] && failing == "" {
+		vReach("dry-vs-broken-real") // both fail at the missing dependency; state checks already done
+		return
+	}
 	if r.buildErr == nil {
 		for l := range dry {
 			vAssert(real[l], "C13: the dry run reported a target the real build did not attempt")
